@@ -24,7 +24,7 @@ ID = "C33"
 LEVEL = "exploration"
 CASES = {"quick": 3000, "thorough": 150000}
 TARGETS = ["own:Cls", "own:Note", "own:Package", "declared:Item", "match:INT", "match:Tag", "match:Ver", "match:Minor"]
-STYLES = ["plain", "semantic", "full", "partial", "wrapped"]
+STYLES = ["plain", "semantic", "full", "partial", "wrapped", "full_semantic", "full_syntax"]
 RULE = ("generated package trees (depth<=3) x target kind (own rule Cls/Note/Package, abstract declared rule Item, base type "
         "INT, user match rule Tag) x index k of the failing call x raise style (5) x string/file load x generated layout. "
         "non-trivial: the failing object/match is nested (depth >= 2) and not on line 1; distinct by canonical JSON")
@@ -134,7 +134,7 @@ class Stop(Exception):
 
 def evaluate(case):
     from textx import metamodel_from_str
-    from textx.exceptions import TextXError, TextXSemanticError
+    from textx.exceptions import TextXError, TextXSemanticError, TextXSyntaxError
     from textx.model import textxerror_wrap
 
     out = Outcome()
@@ -163,6 +163,10 @@ def evaluate(case):
             raise TextXSemanticError(msg)
         if style == "full":
             raise TextXError(msg, line=77, col=5, filename="given.txt", nchar=3)
+        if style == "full_semantic":
+            raise TextXSemanticError(msg, line=77, col=5, filename="given.txt", nchar=3)
+        if style == "full_syntax":
+            raise TextXSyntaxError(msg, line=77, col=5, filename="given.txt", nchar=3)
         if style == "partial":
             raise TextXError(msg, line=77)
         raise ValueError(msg)
@@ -218,7 +222,7 @@ def evaluate(case):
     if err is None:
         return out.add("no_error", ctx)
     want = {"line": el, "col": ec, "filename": fname, "nchar": (target["end"] - target["start"]) if tkind != "match" else None}
-    if style == "full":
+    if style.startswith("full"):
         want = {"line": 77, "col": 5, "filename": "given.txt", "nchar": 3}
     if style == "partial":
         want["line"] = 77
@@ -227,7 +231,7 @@ def evaluate(case):
         if f == "nchar" and tkind == "match":
             continue
         if got[f] != want[f]:
-            kept = style in ("full", "partial") and (style == "full" or f == "line")
+            kept = (style.startswith("full") or style == "partial") and (style.startswith("full") or f == "line")
             b = f"supplied_{f}_changed" if kept else f"{f}/{tkind}"
             out.add(b, ctx + f": {f} is {got[f]!r}, expected {want[f]!r} ({err})")
     return out
